@@ -36,6 +36,7 @@ type obsResult struct {
 	Ana      string            `json:"ana"`    // Coq term : ana_obs
 	Enums    string            `json:"enums"`  // Coq term : list enum (hook)
 	Unions   string            `json:"unions"` // Coq term : list (string * list string) (hook)
+	Source   string            `json:"source"` // Coq term : list gty — E1's own reading of the file's type declarations, by position
 	Gen      map[string]genOut `json:"gen,omitempty"`
 	Extra    map[string]string `json:"extra,omitempty"`
 	NumNodes int               `json:"num_nodes"`
@@ -290,6 +291,7 @@ func observe(target string, what string) *obsResult {
 	if an != nil && what != "" {
 		observeGenerators(res, pkg, an, target, what)
 	}
+	res.Source = fx.expectedSource(target)
 	// facts last: rendering may have noted more defined types
 	res.Facts = fx.coqProg()
 	return res
@@ -348,4 +350,31 @@ func observeAll(specs []*modSpec, what string, workers int) []*obsResult {
 	}
 	wg.Wait()
 	return out
+}
+
+// expectedSource: the type names declared in the analysed file, in source order (independent of gomacro).
+func (fx *factsCtx) expectedSource(target string) string {
+	type tn struct {
+		pos int
+		t   types.Type
+	}
+	var l []tn
+	sc := fx.root.Types.Scope()
+	for _, name := range sc.Names() {
+		obj, ok := sc.Lookup(name).(*types.TypeName)
+		if !ok {
+			continue
+		}
+		p := fx.root.Fset.Position(obj.Pos())
+		if p.Filename != target {
+			continue
+		}
+		l = append(l, tn{p.Offset, obj.Type()})
+	}
+	sort.Slice(l, func(i, j int) bool { return l[i].pos < l[j].pos })
+	var out []string
+	for _, x := range l {
+		out = append(out, fx.coqTy(x.t))
+	}
+	return coqList(out)
 }
